@@ -4,7 +4,8 @@ import AgModel.Model.Wire
 
 ops (one output line each):
   dec <T> <hex>      decode the byte string exactly as message type T and re-encode
-                     -> `err` | `ok <len> <fnv1a64 of the re-encoding>`
+                     -> `err` | `ok <len> <fnv1a64 of the re-encoding>[ <decoded fields>]`
+                     (cm: `v <slot> <signer>` / `c <slot> <declared stake>`; sh: `i <index in slot>`)
 T := cm (ConsensusMessage) | tx (Transaction) | rq (RepairRequest) | rs (RepairResponse) | sh (Shred)
 The crypto point decoders are instantiated with "always valid": the harness only emits byte strings
 whose verdict does not depend on them. -/
@@ -24,10 +25,21 @@ def fnv64 (bs : List Nat) : Nat :=
 
 def anyOk : CryptoOk := ⟨fun _ => true, fun _ => true⟩
 
-def reenc {α : Type} (c : Codec α) (bs : List Nat) : String :=
+/-- a few decoded field values, printed after the re-encoding digest -/
+def digCm : ConsensusMsg → String
+  | .vote (.notar s _ _ i) | .vote (.notarFallback s _ _ i) | .vote (.skip s _ i) | .vote (.skipFallback s _ i)
+  | .vote (.final s _ i) => s!" v {s} {i}"
+  | .cert (.notar s _ _ st) | .cert (.notarFallback s _ _ _ st) | .cert (.skip s _ _ st) | .cert (.fastFinal s _ _ st)
+  | .cert (.final s _ st) => s!" c {s} {st}"
+
+def digSh (s : ShredW) : String := s!" i {s.sliceIndex * AgModel.Gen.TOTAL_SHREDS + s.shredIndex}"
+
+def reencD {α : Type} (c : Codec α) (dig : α → String) (bs : List Nat) : String :=
   match decodeExact c bs with
   | none => "err"
-  | some a => let e := c.enc a; s!"ok {e.length} {fnv64 e}"
+  | some a => let e := c.enc a; s!"ok {e.length} {fnv64 e}{dig a}"
+
+def reenc {α : Type} (c : Codec α) (bs : List Nat) : String := reencD c (fun _ => "") bs
 
 def step (st : Unit) (ws : List String) : Unit × List String :=
   match ws with
@@ -35,21 +47,21 @@ def step (st : Unit) (ws : List String) : Unit × List String :=
   | ["dec", t, hx] =>
     let bs := unhex hx.toList
     let out := match t with
-      | "cm" => reenc (consensusMsg anyOk) bs
+      | "cm" => reencD (consensusMsg anyOk) digCm bs
       | "tx" => reenc transaction bs
       | "rq" => reenc repairRequest bs
       | "rs" => reenc repairResponse bs
-      | "sh" => reenc shred bs
+      | "sh" => reencD shred digSh bs
       | _ => "bad-type"
     (st, [out])
   | ["dec", t] =>
     -- the empty byte string
     let out := match t with
-      | "cm" => reenc (consensusMsg anyOk) []
+      | "cm" => reencD (consensusMsg anyOk) digCm []
       | "tx" => reenc transaction []
       | "rq" => reenc repairRequest []
       | "rs" => reenc repairResponse []
-      | "sh" => reenc shred []
+      | "sh" => reencD shred digSh []
       | _ => "bad-type"
     (st, [out])
   | _ => (st, ["bad-op"])
